@@ -2,7 +2,7 @@ import SurfModel.TextLayout
 import SurfProofs.Lemmas.TextLayout
 import SurfProofs.Lemmas.TextWriter
 /-!
-Lemmas for `C09_text_complete`: a run of `put_cell` calls whose layout positions all lie inside the window
+Lemmas for `C09_text_complete_partial`: a run of `put_cell` calls whose layout positions all lie inside the window
 stores every placed cell at the offset of its position; glyph fallback and the short-circuiting `all`.
 -/
 namespace SurfProofs.Lemmas.TextRender
@@ -217,5 +217,32 @@ theorem placedOf_snd (poss : List (Option (Nat × Nat))) (ks : List Kind) (f : K
       | some q =>
         have hf : f k = true := by simpa using h.1.symm
         simp [placedOf, List.zip_cons_cons, List.filterMap_cons, this, List.filter_cons, hf]
+
+/-- the kinds that got a position, by the mask "got a position" -/
+theorem placedOf_snd_mask (poss : List (Option (Nat × Nat))) (ks : List Kind) (h : poss.length = ks.length) :
+    (placedOf poss ks).map (·.2) =
+      (ks.zip (poss.map Option.isSome)).filterMap fun x => if x.2 then some x.1 else none := by
+  induction poss generalizing ks with
+  | nil => cases ks with
+    | nil => simp [placedOf]
+    | cons k ks => simp at h
+  | cons p ps ih =>
+    cases ks with
+    | nil => simp at h
+    | cons k ks =>
+      simp only [List.length_cons, Nat.add_right_cancel_iff] at h
+      have := ih ks h
+      simp only [placedOf] at this
+      cases p with
+      | none => simp [placedOf, List.zip_cons_cons, List.filterMap_cons, this]
+      | some q => simp [placedOf, List.zip_cons_cons, List.filterMap_cons, this]
+
+theorem mask_filter (ks : List Kind) (f : Kind → Bool) :
+    ((ks.zip (ks.map f)).filterMap fun x => if x.2 then some x.1 else none) = ks.filter f := by
+  induction ks with
+  | nil => rfl
+  | cons k ks ih =>
+    simp only [List.map_cons, List.zip_cons_cons, List.filterMap_cons, List.filter_cons]
+    cases hf : f k <;> simp [ih]
 
 end SurfProofs.Lemmas.TextRender
